@@ -735,6 +735,10 @@ func (r *resolver) expandUses(parent HasDataDefinitions, u *Uses) ([]Definition,
 		}
 	}
 
+	// the grouping's own content is done: what the uses adds with its augments is written
+	// outside the grouping and may use the same grouping again without being a recursion
+	delete(r.inProgressUses, g)
+
 	if err := r.applyRefinements(u, parent); err != nil {
 		return nil, err
 	}
@@ -752,7 +756,6 @@ func (r *resolver) expandUses(parent HasDataDefinitions, u *Uses) ([]Definition,
 	if r.trace {
 		fc.Debug.Printf("!USE %s:%s", parent.Ident(), u.Ident())
 	}
-	delete(r.inProgressUses, g)
 	resolved.defs = added
 
 	return added, nil
